@@ -25,6 +25,7 @@ type ModInfo struct {
 	Trans   map[*ssa.Function]map[string]bool
 	Callees map[*ssa.Function]map[*ssa.Function]bool
 	addrTaken []*ssa.Function
+	writesThrough map[*ssa.Function]map[string]bool
 	w       *World
 }
 
@@ -479,4 +480,243 @@ func (mi *ModInfo) immutableFields() []string {
 func (mi *ModInfo) modOf(f *ssa.Function) (map[string]bool, bool) {
 	t, ok := mi.Trans[f]
 	return t, ok
+}
+
+// ---- writes to package-level state (C13) ----
+
+type GlobalWrite struct {
+	Fn     *ssa.Function
+	Instr  ssa.Instruction
+	Global string // pkg.var
+	How    string // store | mapupdate | delete | append | call:<callee> | atomic
+	Atomic bool
+}
+
+// root of an address/value: "g:<pkg.var>", "p:<index>", "fv:<index>" or "" (fresh/unknown).
+func valueRoots(v ssa.Value, seen map[ssa.Value]bool, out map[string]bool) {
+	if v == nil || seen[v] {
+		return
+	}
+	seen[v] = true
+	switch x := v.(type) {
+	case *ssa.Global:
+		out["g:"+x.Pkg.Pkg.Name()+"."+x.Name()] = true
+	case *ssa.Parameter:
+		for i, p := range x.Parent().Params {
+			if p == x {
+				out["p:"+itoa(i)] = true
+			}
+		}
+	case *ssa.FreeVar:
+		for i, p := range x.Parent().FreeVars {
+			if p == x {
+				out["fv:"+itoa(i)] = true
+			}
+		}
+	case *ssa.UnOp:
+		valueRoots(x.X, seen, out)
+	case *ssa.FieldAddr:
+		valueRoots(x.X, seen, out)
+	case *ssa.Field:
+		valueRoots(x.X, seen, out)
+	case *ssa.IndexAddr:
+		valueRoots(x.X, seen, out)
+	case *ssa.Index:
+		valueRoots(x.X, seen, out)
+	case *ssa.Lookup:
+		valueRoots(x.X, seen, out)
+	case *ssa.Slice:
+		valueRoots(x.X, seen, out)
+	case *ssa.Phi:
+		for _, e := range x.Edges {
+			valueRoots(e, seen, out)
+		}
+	case *ssa.Extract:
+		valueRoots(x.Tuple, seen, out)
+	case *ssa.ChangeType:
+		valueRoots(x.X, seen, out)
+	case *ssa.ChangeInterface:
+		valueRoots(x.X, seen, out)
+	case *ssa.MakeInterface:
+		valueRoots(x.X, seen, out)
+	case *ssa.TypeAssert:
+		valueRoots(x.X, seen, out)
+	case *ssa.Convert:
+		valueRoots(x.X, seen, out)
+	case *ssa.Next:
+		valueRoots(x.Iter, seen, out)
+	case *ssa.Range:
+		valueRoots(x.X, seen, out)
+	case *ssa.Call:
+		// append(x, ...) may return x's backing array
+		if b, ok := x.Call.Value.(*ssa.Builtin); ok && b.Name() == "append" {
+			valueRoots(x.Call.Args[0], seen, out)
+		}
+	}
+}
+
+func itoa(i int) string {
+	return string(rune('0'+i/10)) + string(rune('0'+i%10))
+}
+
+func rootsOf(v ssa.Value) map[string]bool {
+	out := map[string]bool{}
+	valueRoots(v, map[ssa.Value]bool{}, out)
+	return out
+}
+
+// computeGlobalWrites finds every write whose target is (reachable from) a package-level variable,
+// following values into callees through parameters and closure bindings.
+func (mi *ModInfo) computeGlobalWrites() map[*ssa.Function][]GlobalWrite {
+	w := mi.w
+	// writesThrough[f]["p:i"] = true if f may write memory reachable from that parameter / free variable
+	writesThrough := map[*ssa.Function]map[string]bool{}
+	type site struct {
+		ins   ssa.Instruction
+		roots map[string]bool
+		how   string
+		atomic bool
+	}
+	sites := map[*ssa.Function][]site{}
+	type callArg struct {
+		ins    ssa.CallInstruction
+		callee *ssa.Function
+		param  string
+		roots  map[string]bool
+	}
+	calls := map[*ssa.Function][]callArg{}
+	for _, f := range w.FuncList {
+		writesThrough[f] = map[string]bool{}
+		for _, b := range f.Blocks {
+			for _, ins := range b.Instrs {
+				switch x := ins.(type) {
+				case *ssa.Store:
+					if _, isAlloc := x.Addr.(*ssa.Alloc); isAlloc {
+						continue
+					}
+					sites[f] = append(sites[f], site{ins, rootsOf(x.Addr), "store", false})
+				case *ssa.MapUpdate:
+					sites[f] = append(sites[f], site{ins, rootsOf(x.Map), "mapupdate", false})
+				}
+				ci, ok := ins.(ssa.CallInstruction)
+				if !ok {
+					continue
+				}
+				cc := ci.Common()
+				if bi, ok := cc.Value.(*ssa.Builtin); ok {
+					switch bi.Name() {
+					case "delete":
+						sites[f] = append(sites[f], site{ins, rootsOf(cc.Args[0]), "delete", false})
+					case "append", "copy":
+						// in-place element writes into an existing backing array
+						sites[f] = append(sites[f], site{ins, rootsOf(cc.Args[0]), bi.Name(), false})
+					}
+					continue
+				}
+				var targets []*ssa.Function
+				if cc.IsInvoke() {
+					targets = mi.implMethods(cc.Value.Type(), cc.Method)
+				} else if callee := cc.StaticCallee(); callee != nil {
+					if callee.Pkg != nil && w.InRepo[callee.Pkg] && callee.Blocks != nil {
+						targets = []*ssa.Function{callee}
+					} else {
+						pp := pkgPathOf(callee)
+						for _, a := range cc.Args {
+							pt, isPtr := a.Type().Underlying().(*types.Pointer)
+							if !isPtr {
+								continue
+							}
+							if pp == "sync/atomic" {
+								sites[f] = append(sites[f], site{ins, rootsOf(a), "call:" + funcKey(callee), true})
+								continue
+							}
+							if purePkgs[pp] || strings.HasPrefix(pp, "sync") {
+								continue
+							}
+							if n, ok := pt.Elem().(*types.Named); ok && n.Obj().Pkg() != nil && !strings.HasPrefix(n.Obj().Pkg().Path(), repoModule) {
+								continue // library object: its own synchronisation (listed assumption)
+							}
+							sites[f] = append(sites[f], site{ins, rootsOf(a), "call:" + funcKey(callee), false})
+						}
+					}
+				} else if sig, ok := cc.Value.Type().Underlying().(*types.Signature); ok {
+					for _, g := range mi.addrTaken {
+						if types.Identical(g.Signature, sig) {
+							targets = append(targets, g)
+						}
+					}
+				}
+				for _, t := range targets {
+					args := cc.Args
+					if cc.IsInvoke() {
+						args = append([]ssa.Value{cc.Value}, cc.Args...)
+					}
+					for i, a := range args {
+						if i < len(t.Params) {
+							calls[f] = append(calls[f], callArg{ci, t, "p:" + itoa(i), rootsOf(a)})
+						}
+					}
+					// closure bindings
+					if mc, ok := cc.Value.(*ssa.MakeClosure); ok {
+						for i, bd := range mc.Bindings {
+							calls[f] = append(calls[f], callArg{ci, t, "fv:" + itoa(i), rootsOf(bd)})
+						}
+					}
+				}
+			}
+		}
+	}
+	for changed := true; changed; {
+		changed = false
+		for _, f := range w.FuncList {
+			wt := writesThrough[f]
+			mark := func(roots map[string]bool) {
+				for r := range roots {
+					if (strings.HasPrefix(r, "p:") || strings.HasPrefix(r, "fv:")) && !wt[r] {
+						wt[r] = true
+						changed = true
+					}
+				}
+			}
+			for _, s := range sites[f] {
+				mark(s.roots)
+			}
+			for _, c := range calls[f] {
+				if writesThrough[c.callee][c.param] {
+					mark(c.roots)
+				}
+			}
+		}
+	}
+	mi.writesThrough = writesThrough
+	res := map[*ssa.Function][]GlobalWrite{}
+	for _, f := range w.FuncList {
+		seen := map[string]bool{}
+		addW := func(ins ssa.Instruction, roots map[string]bool, how string, atomic bool) {
+			for r := range roots {
+				if strings.HasPrefix(r, "g:") {
+					k := shortPos(w.Fset, ins.Pos()) + r + how
+					if seen[k] {
+						continue
+					}
+					seen[k] = true
+					res[f] = append(res[f], GlobalWrite{Fn: f, Instr: ins, Global: strings.TrimPrefix(r, "g:"), How: how, Atomic: atomic})
+				}
+			}
+		}
+		for _, s := range sites[f] {
+			addW(s.ins, s.roots, s.how, s.atomic)
+		}
+		for _, c := range calls[f] {
+			if writesThrough[c.callee][c.param] {
+				addW(c.ins, c.roots, "call:"+funcKey(c.callee), false)
+			}
+		}
+	}
+	return res
+}
+
+func isPtrType(t types.Type) bool {
+	_, ok := t.Underlying().(*types.Pointer)
+	return ok
 }
